@@ -100,6 +100,9 @@ def monitor(prop: str, gen: int, script: list[tuple], iout: list[list[tuple]], p
     faultless = True               # no write fault / unencodable so far: bookkeeping is exact
     last_written = -1
     attempts: Counter = Counter()
+    n_faults = 0                   # failw stimuli so far
+    refail = None                  # ordinal whose write failed once with retries left (the only fault so far)
+    first_after_open = False       # the next frame written is the first on a new connection
 
     def find_ord(k, pid, only_pending=True):
         for o in (pending if only_pending else range(len(accepted) - 1, -1, -1)):
@@ -116,6 +119,7 @@ def monitor(prop: str, gen: int, script: list[tuple], iout: list[list[tuple]], p
         if kind == "failw":
             fault_seen = True
             faultless = False
+            n_faults += 1
         if kind == "open":
             is_open = True
             closed_phase = False
@@ -208,6 +212,11 @@ def monitor(prop: str, gen: int, script: list[tuple], iout: list[list[tuple]], p
                         bad.append(f"step {idx}: frame (k={k}, pid={pid}) was never submitted (or substituted)")
                     continue
                 a = accepted[o]
+                if first_after_open and refail is not None and n_faults == 1 and refail in pending and now < accepted[refail]["exp"] and o != refail:
+                    bad.append(f"step {idx}: message #{refail} failed on a single transient write failure but message #{o} was re-sent before it on the next connection")
+                first_after_open = False
+                if o == refail:
+                    refail = None
                 attempts[o] += 1
                 if attempts[o] > 1 + a["r"]:
                     bad.append(f"step {idx}: message #{o} attempted {attempts[o]} times, policy allows {1 + a['r']}")
@@ -230,12 +239,22 @@ def monitor(prop: str, gen: int, script: list[tuple], iout: list[list[tuple]], p
                                 bad.append(f"step {idx}: message #{cand} attempted {attempts[cand]} times, policy allows {1 + a['r']}")
                             if attempts[cand] > a["r"]:
                                 pending.remove(cand)
+                            elif n_faults == 1 and refail is None:
+                                refail = cand
                             break
         # --- promptness (exact bookkeeping only) -------------------------------------------------
         for e in evs:
             if e[0] == "notify":
                 connected = bool(e[1])
+            if e[0] == "open":
+                first_after_open = True
+        if (refail is not None and n_faults == 1 and connected and any(e[0] == "open" for e in evs) and refail in pending
+                and now < accepted[refail]["exp"] and not any(e[0] == "wfail" for e in evs)):
+            bad.append(f"step {idx}: idempotent message #{refail} was lost after a single transient write failure "
+                       f"(connected again at {now}, lifetime until {accepted[refail]['exp']}, never re-sent)")
+            refail = None
         if kind == "close":
+            refail = None
             is_open = False
             closed_phase = True
             connected = False
@@ -253,7 +272,7 @@ RELEVANT_WORDS = {
     "*": ("unhandled failure",),
     "C01": ("never submitted", "written again", "acceptance order", "not whole frames", "still unsent",
             "not the held one", "sends produced", "unexpected"),
-    "C02": ("attempted", "expiry", "written again"),
+    "C02": ("attempted", "expiry", "written again", "single transient"),
     "C07": ("still held", "not whole frames", "unhandled", "not the held one", "probe"),
     "C15": ("after close()", "not closed", "still scheduled", "not open"),
     "C16": ("QueueOverflowError", "eleventh", "expiry", "not open", "NotOpenError"),
